@@ -78,6 +78,11 @@ StepRF(e) ==
                \cup (IF \E i \in 1..n : IsNaN(e.rf[i]) THEN {"C03.NaN"} ELSE {})
     IN  Report(e, bad) /\ UNCHANGED h
 
+\* first-order accuracy at one resolution (C02): errE = 1000 * error * nx (field: also * sqrt(pi t), the front slope)
+\* against the closed-form Fourier series / an independent method-of-lines solution of the documented problem
+OrderMax == [field |-> 4000, rf |-> 5000]      \* 2x the values observed on the repaired tree (2.0, 2.45)
+StepOrder(e) == Report(e, IF e.errE > OrderMax[e.what] THEN {e.owner \o ".FirstOrder:" \o e.what} ELSE {}) /\ UNCHANGED h
+
 \* recovery interpolator of a finished run (C17): reproduces recovery at the simulated times (<= 2 ulp: the last node is
 \* reached through slope * width), is exactly 0 before the first time and exactly the final recovery after the last
 InterpNodeUlps == 2
@@ -106,6 +111,7 @@ TNext == /\ l <= Len(Trace)
                   [] e.ev = "Shift" -> StepShift(e)
                   [] e.ev = "Ladder" -> StepLadder(e)
                   [] e.ev = "Interp" -> StepInterp(e)
+                  [] e.ev = "Order" -> StepOrder(e)
          /\ l' = l + 1
 
 TraceSpec == TInit /\ [][TNext]_tv
